@@ -74,9 +74,19 @@ str_net_to_ss(const char *buf, size_t buf_size, sockaddr_storage_p addr,
 
 	if (NULL == buf || 0 == buf_size || NULL == addr)
 		return (EINVAL);
+	/* Blanks around the text are skipped (sa_addr_from_str() do it at the
+	 * start), blanks inside are not a part of any spelling. */
+	while (0 != buf_size &&
+	    (' ' == buf[(buf_size - 1)] || '\t' == buf[(buf_size - 1)])) {
+		buf_size --;
+	}
+	if (0 == buf_size)
+		return (EINVAL);
 
 	ptm = mem_rchr(buf, buf_size, '/'); /* net-preflen delimiter. */
 	if (NULL != ptm) {
+		if (ptm > buf && (' ' == ptm[-1] || '\t' == ptm[-1]))
+			return (EINVAL); /* Blank before '/'. */
 		ptm ++;
 		if (0 != str2u16_chk(ptm, (size_t)(buf_size - (size_t)(ptm - buf)),
 		    128, &preflen))
